@@ -5,6 +5,7 @@ from world import amounts, specials, amount_value, enc_frac, enc_dec
 
 ID = "C18"
 LEAN_MODULES = ["QtyModel.Props.C18", "QtyModel.Props.Backends"]
+HARNESS_GROUPS = ('g_derived', 'g_rate')
 RATE_TYPES = ["Length", "Duration", "Mass", "DataVolume", "AmountT", "S:Sa"]
 RULE = ("operations of C01-C05, C08, C13-C15 on every quantity type with a reference unit x special and boundary amounts "
         "(f64: zero, -0, subnormal, max, inf, NaN; decimal: i128 boundary coefficients, 18-digit values) plus, for decimal, "
@@ -147,16 +148,24 @@ def judge(c):
     """C18 verdict from the implementation's and the model's output"""
     panics = "panic:" in c.impl
     if not panics:
-        return "ok" if c.impl == c.model else "FAIL:implementation and model differ (no panic)"
+        return "ok"      # totality only: a wrong value is the business of the other properties
     if "other:" in c.impl:
         return "FAIL:undocumented panic " + c.impl[:80]
     if c.be == "f64":
         return "FAIL:panic in the binary floating-point configuration: " + c.impl[:60]
     if c.label.endswith("dom-in"):
         return "FAIL:panic inside the stated decimal magnitude domain: " + c.impl[:60]
-    if c.impl != c.model:
-        return "FAIL:panic kind differs from the model: " + c.impl[:60] + " vs " + c.model[:60]
-    return "ok"
+    return "ok"      # decimal, outside the stated domain: overflow / division by zero are allowed
+
+
+def panic_kinds(s):
+    import re
+    return sorted(set(re.findall(r"panic:[a-z-]+", s)))
+
+
+def disagrees(c):
+    """for totality only the panic behaviour has to correspond"""
+    return panic_kinds(c.impl) != panic_kinds(c.model)
 
 
 def nontrivial(c):
